@@ -449,6 +449,8 @@ def run(ck):
         style = 0 if i % 3 == 0 else 1 + rng.below(2)
         txt = render(rng, paths, style)
         if i % 97 == 96:      # error texts: a line without ':' / a child under a value
+            if not txt.endswith(b"\n"):
+                txt += b"\n"   # (a partial dedent below every open level is undefined behaviour in the parser: not generated)
             txt += rng.choice([b"oops no colon\n", b"v: 1\n      child: 2\n"])
         cmds.append("Y " + hx(txt)); meta.append(("Y", None))
     for (t, qs) in Q_CORPUS:
@@ -489,10 +491,11 @@ def run(ck):
                 cmds.append("G " + hx(u)); meta.append(("Ge", (nm, a, b)))
         else:                       # convert between two unit strings of the same dimensions
             tgt = [rng.below(5) - 2 for _ in range(4)] + [0, rng.below(2)]
-            u1 = unit_string(rng, gen_unit_tokens(rng, table, tgt, allow_zero=False))
-            u2 = unit_string(rng, gen_unit_tokens(rng, table, tgt, allow_zero=False))
+            k1 = gen_unit_tokens(rng, table, tgt, allow_zero=False)
+            k2 = gen_unit_tokens(rng, table, tgt, allow_zero=False)
+            u1, u2 = unit_string(rng, k1), unit_string(rng, k2)
             x = (0.5 + rng.uniform()) * 10.0 ** (rng.below(13) - 6)
-            cmds.append("V %016x %s %s" % (vf.dbl_bits(x), hx(u1), hx(u2))); meta.append(("V", (x, u1, u2)))
+            cmds.append("V %016x %s %s" % (vf.dbl_bits(x), hx(u1), hx(u2))); meta.append(("V", (x, u1, u2, k1, k2)))
 
     rc_i, out_i = run_impl(ck, cmds)
     if rc_i != 0 or len(out_i) != len(cmds):
@@ -599,9 +602,16 @@ def run(ck):
         elif kind == "V":
             f = out.split()
             if len(f) == 2 and f[1] != "ERR":
-                x, u1, u2 = meta[k][1]
+                x, u1, u2, k1, k2 = meta[k][1]
                 y = vf.bits_dbl(int(f[1], 16))
-                # convert there and back on the real code is checked through a second command below (model pass compares bits)
+                exp = x
+                for nm, e in k1:
+                    exp *= table[nm][0] ** e
+                for nm, e in k2:
+                    exp /= table[nm][0] ** e
+                if math.isfinite(exp) and 1e-280 < abs(exp) < 1e280 and not (abs(y - exp) <= 1e-12 * abs(exp)):
+                    violate("convert(%r, %r, %r) = %r but the ratio of the products of the parts gives %r" % (x, u1, u2, y, exp),
+                            {"cmd": cmd, "x": x, "from": u1, "to": u2, "expected": exp}, {"kind": "unit_convert"})
 
     # ---- correspondence: extracted model on the same commands (+ W commands built from the Q answers)
     mism = 0
